@@ -636,6 +636,28 @@ def h_prog_dcache(e, mnems, cfg, props):
         e.claim_eq("C03:single-cycle-cached==uncached:output", c1.sim.state.output, c0.sim.state.output)
         e.claim_eq("C03:single-cycle-cached==uncached:exit", c1.sim.state.exit_code, c0.sim.state.exit_code)
         e.claim("C03:single-cycle-cached==uncached:fault", (s1.fault is None) == (s0.fault is None))
+        qm = e.int("qm", 0, 2**32 - 1)
+        m1_ = c1.sim.state.memory
+        e.claim_eq("C03:single-cycle-cached==uncached:memory", logical_byte(abstract_state(m1_, g_), g_, c1.mem_store, qm), c0.mem_byte(qm))
+    if "C02" in props:
+        g3 = Geo(ib, bb, ways)
+        m1c = c1.sim.state.memory
+        compare_final(e, s1, s5, mem5=lambda qa_: logical_byte(abstract_state(m5, g3), g3, c5.mem_store, qa_), mem1=lambda qa_: logical_byte(abstract_state(m1c, g3), g3, c1.mem_store, qa_))
+    if "C12" in props and s1.fault is None and s5.fault is None and not s5.nonterminating:
+        # the C12 state relation at the end of a program, in both modes, and nothing written lost
+        g2 = Geo(ib, bb, ways)
+        qc = e.int("qc", 0, 2**32 - 1)
+        for tag_, c_ in (("single", c1), ("five", c5)):
+            A_ = abstract_state(c_.sim.state.memory, g2)
+            L_ = logical_byte(A_, g2, c_.mem_store, qc)
+            if kind == "wt":
+                e.claim_eq("C12:%s:wt-backing-memory-is-current" % tag_, c_.mem_store.abstract(qc), L_)
+                allw = [implies(b["valid"], cond("==", b["words"][j], backing_word(c_.mem_store, b["base"], j))) for s_ in range(g2.sets) for b in A_[s_]["ways"] if len(b["words"]) >= g2.words for j in range(g2.words)]
+                e.claim("C12:%s:wt-resident-words-equal-backing" % tag_, land(*allw) if allw else True)
+            else:
+                e.claim("C12:%s:wb-differs-only-where-resident" % tag_, lor(cond("==", c_.mem_store.abstract(qc), L_), is_resident(A_, g2, qc)))
+            e.claim_eq("C12:%s:no-written-value-lost" % tag_, L_, c0.mem_byte(qc))
+        e.claim("canary:C12:prog", cond("==", c0.mem_byte(qc), zx(c0.mem_byte(qc) + 1, 8)))
     if "C09" in props and s1.fault is None and s5.fault is None and not s5.nonterminating:
         m1 = c1.sim.state.memory
         e.claim("C09:one-access-per-executed-load-or-store", m1.accesses == len(memops1), {"accesses": m1.accesses, "memory_instructions": len(memops1)})
